@@ -24,6 +24,12 @@ import numpy as np
 from vf import lattice
 from vf.cli import WorkerResult
 
+
+def _gt(a, b):
+    """a > b that is also True when a is NaN (a silent NaN must never pass a tolerance test)."""
+    return ~(np.asarray(a) <= np.asarray(b))
+
+
 LEVEL = "exploration"
 RULE = (
     "complete product dimension x lattice menu x wrap x point set x centre x radius; one "
@@ -134,7 +140,7 @@ def _case(arg):
             res.violation("wrap:fractional-coordinates-outside-[0,1)", f"fractional coordinates in [{frac.min()}, {frac.max()}]", case0)
         # wrapped points are lattice images of the originals
         diff = (gp.reshape(len(gp), -1) - keep.reshape(len(gp), -1)) @ np.linalg.pinv(vec)
-        if np.max(np.abs(diff - np.round(diff))) > 1e-9:
+        if _gt(np.max(np.abs(diff - np.round(diff))), 1e-9):
             res.violation("wrap:not-a-lattice-translation", "wrapped points are not lattice images of the given points", case0)
     elif not np.array_equal(gp, keep):
         res.violation("points-changed-without-wrap", "points differ from the given ones although wrap is off", case0)
